@@ -223,7 +223,7 @@ R.contract("Node.close_connection_socket", params={"self": "Node", "conn": "Peer
                      "dict:self.connections", "dict:self.peer_sockets", "dict:self.socket_peers",
                      "dict:self._half_ready_connections", "dict:self._peer_waiting_answer",
                      "*Peer.connection", "*Peer.last_disconnect", "*Peer.disconnect_reason", "*Event.flag", "*list:Peer"],
-           props=["C13", "C19", "C11"])
+           props=["C13", "C19", "C11", "C14"])
 
 # ---- C12: reconnect policy -------------------------------------------------------------------------------------
 R.model("Node", fields={"g_dialled": "Seq[Peer]"})
